@@ -773,7 +773,7 @@ class Interp:
         if isinstance(f, ast.Attribute):
             base = self.eval(f.value, env)
             args = [self.eval(a, env) for a in e.args]
-            if e.keywords and not (isinstance(base, tuple) and base and base[0] == 'module'):
+            if e.keywords and not (isinstance(base, tuple) and base and base[0] in ('module', 'hostattr')) and not (isinstance(base, AList) and f.attr == 'sort'):
                 self.bad(e, 'keyword arguments in a method call')
             if e.keywords:
                 self._kwargs = {kw.arg: self.eval(kw.value, env) for kw in e.keywords if kw.arg}
@@ -1122,6 +1122,27 @@ class Interp:
                 return None
             if m == 'copy':
                 return AList(base.l)
+            if m == 'sort' and not args:
+                kw = getattr(self, '_kwargs', {}) or {}
+                self._kwargs = {}
+                key, reverse = kw.get('key'), kw.get('reverse', False)
+                if set(kw) - {'key', 'reverse'} or not isinstance(reverse, bool):
+                    self.bad(e, 'list.sort options outside the subset')
+                import functools
+                if isinstance(key, tuple) and key and key[0] == 'cmpkey':
+                    def cmp(x, y):
+                        r = self.apply(key[1], [x, y], e)
+                        if isinstance(r, bool) or not isinstance(r, (int, float)):
+                            raise RaiseSig('TypeError', (f'comparison function returned {r!r}',), e)
+                        return (r > 0) - (r < 0)
+                    base.l.sort(key=functools.cmp_to_key(cmp), reverse=reverse)
+                    return None
+                if key is None:
+                    def hcmp(x, y):
+                        return -1 if self.compare(ast.Lt(), x, y, e) else (1 if self.compare(ast.Lt(), y, x, e) else 0)
+                    base.l.sort(key=functools.cmp_to_key(hcmp), reverse=reverse)
+                    return None
+                self.bad(e, 'list.sort with a key function outside the subset')
             self.bad(e, f'list method {m}')
         if isinstance(base, APart):
             if m in ('strip', 'rstrip', 'lstrip'):
